@@ -71,7 +71,32 @@ def run(chk):
     n = 250 if chk.tier == "quick" else 4000
     pool = [(l, None, g) for l, g in graphs.example_graphs()]
     pool += list(graphs.generated(chk.seed, n, chk))
-    for label, doc, g in pool:
+    # after the graph itself, graphs derived from it by the library's own operations (sizes were already asked of
+    # the original by then): the answers must describe the graph they are asked of, whatever its history
+    import demes as _demes
+    rngd = __import__("random").Random(chk.seed + 13)
+
+    def with_derived(items):
+        for label, doc, g in items:
+            yield label, doc, g
+            try:
+                d0 = g.asdict()
+                if d0["time_units"] == "generations" and len(g.demes) and rngd.random() < 0.5:
+                    d0 = dict(d0, time_units="years", generation_time=rngd.choice([2, 25, 29.5]))
+                    g2 = _demes.Graph.fromdict(d0)
+                    for dm in g2.demes:
+                        dm.size_at(0)
+                        dm.size_at(dm.epochs[-1].end_time)
+                else:
+                    g2 = g
+                if g2.generation_time not in (None, 1) and rngd.random() < 0.7:
+                    yield label + "|in_generations", None, g2.in_generations()
+                if len(g.demes) >= 2 and rngd.random() < 0.3:
+                    a, c = g.demes[0].name, g.demes[-1].name
+                    yield label + "|rename-swap", None, g.rename_demes({a: c, c: a})
+            except Exception as e:
+                chk.count("derived_failed_" + type(e).__name__)
+    for label, doc, g in with_derived(pool):
         payload = g.asdict()
         times = gen.interesting_times(g)
         for i, d in enumerate(g.demes):
